@@ -72,3 +72,73 @@ func parallelMap(in, out string, workers int, fn func(line []byte) (any, error))
 	}
 	return firstErr
 }
+
+// parallelMapMulti is parallelMap for functions that return several output lines per input line.
+func parallelMapMulti(in, out string, workers int, fn func(line []byte) ([]any, error)) error {
+	type multi struct{ items []any }
+	w, err := newLineWriter(out)
+	if err != nil {
+		return err
+	}
+	defer w.close()
+	if workers <= 0 {
+		workers = runtime.NumCPU()
+	}
+	type job struct {
+		seq  int
+		line []byte
+	}
+	jobs := make(chan job, 256)
+	results := map[int][]any{}
+	var mu sync.Mutex
+	var firstErr error
+	next := 0
+	flush := func() {
+		for {
+			r, ok := results[next]
+			if !ok {
+				return
+			}
+			for _, it := range r {
+				w.write(it)
+			}
+			delete(results, next)
+			next++
+		}
+	}
+	var wg sync.WaitGroup
+	for i := 0; i < workers; i++ {
+		wg.Add(1)
+		go func() {
+			defer wg.Done()
+			for j := range jobs {
+				r, err := fn(j.line)
+				mu.Lock()
+				if err != nil && firstErr == nil {
+					firstErr = err
+				}
+				if r == nil {
+					r = []any{}
+				}
+				results[j.seq] = r
+				flush()
+				mu.Unlock()
+			}
+		}()
+	}
+	seq := 0
+	rerr := readLines(in, func(line []byte) error {
+		jobs <- job{seq, line}
+		seq++
+		return nil
+	})
+	close(jobs)
+	wg.Wait()
+	mu.Lock()
+	flush()
+	mu.Unlock()
+	if rerr != nil {
+		return rerr
+	}
+	return firstErr
+}
